@@ -11,10 +11,18 @@ spec('hdr_is_init_request', {'d': Bytes}, Bool, 'be_at(d, 18, 1) == 34 and be_at
 spec('hdr_local_spi', {'d': Bytes}, Bytes, 'd[8:16] if be_at(d, 19, 1) // 8 % 2 == 1 else d[0:8]')
 spec('has_spi', {'l': List(S), 'spi': Bytes}, Bool,
      'exists(lambda k: 0 <= k and k < len(l) and at(l, k).my_spi == spi)')
+# both are opaque (hidden behind symbols that take the heap as hidden arguments): the dispatcher never looks inside
+# an IKE_SA's invariant, it only hands it from the table to process_message
 spec('entry_ok', {'s': S}, Bool,
-     'live_ref(s) and inv_ikesa(s) and s.my_msg_id + 1 < 2 ** 32 - 1 and s.peer_msg_id + 1 < 2 ** 32 - 1')
+     'live_ref(s) and inv_ikesa(s) and s.my_msg_id + 1 < 2 ** 32 - 1 and s.peer_msg_id + 1 < 2 ** 32 - 1',
+     opaque=True)
 spec('inv_table', {'c': CT}, Bool,
-     'table_distinct(c.ike_sas) and forall(lambda k: implies(0 <= k and k < len(c.ike_sas), entry_ok(at(c.ike_sas, k))))')
+     'table_distinct(c.ike_sas) and forall(lambda k: implies(0 <= k and k < len(c.ike_sas), '
+     'live_ref(at(c.ike_sas, k)) and entry_ok(at(c.ike_sas, k)) '
+     # an ended IKE_SA is taken out of the table in the same step; a rekeyed one has its successor listed
+     'and at(c.ike_sas, k).state != 21 '
+     'and implies(at(c.ike_sas, k).state == 20 or at(c.ike_sas, k).state == 16, at(c.ike_sas, k).new_ike_sa in c.ike_sas)))',
+     opaque=True)
 
 # the controller's view of IkeSa.process_message: the routing observers
 CONTRACTS['ikesa.IkeSa.process_message'].defines = {'delivered': 'delivered + 1', 'routed': 'self'}
@@ -23,6 +31,9 @@ CONTRACTS['ikesa.IkeSa.process_message'].defines_exc = {'delivered': 'delivered 
 c = contract('ikesacontroller.IkeSaController.dispatch_message',
              params={'data': Bytes, 'my_addr': IP, 'peer_addr': IP}, returns=Opt(Bytes), props=['C16', 'C17'],
              requires=['live_ref(self)', 'inv_table(self)'],
+             # proof steps where the routed IKE_SA becomes known: it satisfies the per-entry invariant (a table entry by
+             # the table invariant, a new responder IKE_SA by its constructor's contract)
+             after={'ike_sa': ['reveal(inv_table(self)) and reveal(entry_ok(ike_sa)) and entry_ok(ike_sa)']},
              modifies=['self.ike_sas', 'ghost:trace', 'ghost:handled', 'ghost:now'],
              # C17: nothing but a socket error of the kernel interface (contained by main_loop) leaves the dispatcher
              raises={'OSError': 'True'},
@@ -30,27 +41,35 @@ c = contract('ikesacontroller.IkeSaController.dispatch_message',
                  'C16:at-most-one-delivery': 'delivered == old(delivered) or delivered == old(delivered) + 1',
                  # a datagram for an unknown SPI (or one that is not even an IKE header) is dropped without any effect
                  'C16:unknown-spi-dropped': 'implies(not hdr_is_init_request(data) '
-                                            'and not has_spi(old(self.ike_sas), hdr_local_spi(data)), '
+                                            'and not old(has_spi(self.ike_sas, hdr_local_spi(data))), '
                                             'result is None and nothing_changed() and delivered == old(delivered))',
                  # otherwise it goes to an IKE_SA of the table whose local SPI is the header SPI the initiator flag selects
                  'C16:routed-by-spi': 'implies(delivered != old(delivered) and not hdr_is_init_request(data), '
-                                      'routed in old(self.ike_sas) and routed.my_spi == hdr_local_spi(data))',
+                                      'exists(lambda k: 0 <= k and k < len(old(self.ike_sas)) '
+                                      'and at(old(self.ike_sas), k) == routed '
+                                      'and old(at(self.ike_sas, k).my_spi) == hdr_local_spi(data)))',
                  # an IKE_SA_INIT request is handed to a freshly created IKE_SA, never to an existing one
                  'C16:init-fresh': 'implies(delivered != old(delivered) and hdr_is_init_request(data), fresh_ref(routed))',
                  # the table: nobody but the routed IKE_SA leaves it, nobody but the routed one and its successor joins it
                  'C16:table-keeps': 'forall(lambda k: implies(0 <= k and k < len(old(self.ike_sas)) '
                                     'and not (delivered != old(delivered) and at(old(self.ike_sas), k) == routed), '
-                                    'at(old(self.ike_sas), k) in self.ike_sas))',
+                                    'exists(lambda j: 0 <= j and j < len(self.ike_sas) '
+                                    '    and at(self.ike_sas, j) == at(old(self.ike_sas), k))))',
                  'C16:table-adds': 'forall(lambda k: implies(0 <= k and k < len(self.ike_sas), '
-                                   'at(self.ike_sas, k) in old(self.ike_sas) or (delivered != old(delivered) and '
+                                   'exists(lambda j: 0 <= j and j < len(old(self.ike_sas)) '
+                                   '    and at(old(self.ike_sas), j) == at(self.ike_sas, k)) '
+                                   'or (delivered != old(delivered) and '
                                    '(at(self.ike_sas, k) == routed or at(self.ike_sas, k) == routed.new_ike_sa))))',
                  'C16:table-distinct': 'table_distinct(self.ike_sas)',
                  'C16:deleted-removed': 'implies(delivered != old(delivered) and routed.state == 21, '
-                                        'not (routed in self.ike_sas) and len(routed.child_sas) == 0)',
+                                        'len(routed.child_sas) == 0 and forall(lambda k: implies(0 <= k '
+                                        'and k < len(self.ike_sas), not (at(self.ike_sas, k) == routed))))',
                  'C16:successor-listed': 'implies(delivered != old(delivered) and (routed.state == 20 or routed.state == 16), '
-                                         'routed.new_ike_sa in self.ike_sas)',
+                                         'exists(lambda k: 0 <= k and k < len(self.ike_sas) '
+                                         'and at(self.ike_sas, k) == routed.new_ike_sa))',
                  'C16:live-stays': 'implies(delivered != old(delivered) and routed.state != 21 '
-                                   'and not (routed.state == 0 and not routed.is_initiator), routed in self.ike_sas)',
+                                   'and not (routed.state == 0 and not routed.is_initiator), '
+                                   'exists(lambda k: 0 <= k and k < len(self.ike_sas) and at(self.ike_sas, k) == routed))',
                  # C17 isolation: no other IKE_SA of the table is touched (only the routed one and the successor it had)
                  'C17:isolation': 'forall(lambda k: implies(0 <= k and k < len(old(self.ike_sas)) '
                                   'and not (at(old(self.ike_sas), k) == routed) '
@@ -60,4 +79,5 @@ c = contract('ikesacontroller.IkeSaController.dispatch_message',
                                   'unchanged(at(old(self.ike_sas), k))))',
              })
 c.no_frame = True
+c.exit_reveal = ['old(inv_table(self))']
 c.allocates = True
